@@ -75,13 +75,18 @@ pub struct Program {
     pub repeat: u64,
     pub ops: Vec<Op>,
     pub stream_bytes: usize, // 0 = library default
+    /// The sink is the library's VectorSink and, while a runner runs, a second
+    /// thread keeps taking its `Hook::data()` guard for short moments (what a
+    /// test or UI thread watching the sink does).
+    pub vector_sink: bool,
 }
 
 impl Program {
     pub fn describe(&self) -> Value {
         json!({"source": format!("{:?} x{} repeat {}", self.src_ty, self.src_len, self.repeat),
                "ops": self.ops.iter().map(|o| o.name()).collect::<Vec<_>>(),
-               "stream_bytes": self.stream_bytes})
+               "stream_bytes": self.stream_bytes,
+               "sink": if self.vector_sink { "VectorSink watched by a second thread" } else { "CollectSink" }})
     }
     pub fn nblocks(&self) -> usize {
         fn cnt(ops: &[Op]) -> usize {
@@ -244,10 +249,37 @@ pub enum SinkHandle {
     F32(Arc<Mutex<Vec<f32>>>),
     C32(Arc<Mutex<Vec<C32>>>),
     Pkt(Arc<Mutex<Vec<Vec<u8>>>>),
+    VU8(Arc<rustradio::vector_sink::Hook<u8>>),
+    VF32(Arc<rustradio::vector_sink::Hook<f32>>),
+    VC32(Arc<rustradio::vector_sink::Hook<C32>>),
 }
 impl SinkHandle {
+    /// For a VectorSink: a closure that takes the data guard, looks at it and
+    /// holds it for the given time.
+    pub fn watcher(&self) -> Option<Box<dyn Fn(std::time::Duration) -> usize + Send>> {
+        fn mk<T: Copy + Send + 'static>(h: &Arc<rustradio::vector_sink::Hook<T>>) -> Box<dyn Fn(std::time::Duration) -> usize + Send> {
+            let h = h.clone();
+            Box::new(move |hold| {
+                let d = h.data();
+                let n = d.samples().len() + d.tags().len();
+                if !hold.is_zero() {
+                    std::thread::sleep(hold);
+                }
+                n
+            })
+        }
+        match self {
+            SinkHandle::VU8(h) => Some(mk(h)),
+            SinkHandle::VF32(h) => Some(mk(h)),
+            SinkHandle::VC32(h) => Some(mk(h)),
+            _ => None,
+        }
+    }
     pub fn data(&self) -> Data {
         match self {
+            SinkHandle::VU8(h) => Data::U8(h.data().samples().to_vec()),
+            SinkHandle::VF32(h) => Data::F32(h.data().samples().to_vec()),
+            SinkHandle::VC32(h) => Data::C32(h.data().samples().to_vec()),
             SinkHandle::U8(v) => Data::U8(v.lock().unwrap().clone()),
             SinkHandle::F32(v) => Data::F32(v.lock().unwrap().clone()),
             SinkHandle::C32(v) => Data::C32(v.lock().unwrap().clone()),
@@ -522,6 +554,24 @@ pub fn build(p: &Program, infinite: bool) -> BuiltGraph {
         w = apply(&mut b, w, op);
     }
     let sink = match w {
+        Wire::U8(r, _) if p.vector_sink => {
+            let sk = VectorSink::new(r, usize::MAX);
+            let h = Arc::new(sk.hook());
+            b.add(sk);
+            SinkHandle::VU8(h)
+        }
+        Wire::F32(r) if p.vector_sink => {
+            let sk = VectorSink::new(r, usize::MAX);
+            let h = Arc::new(sk.hook());
+            b.add(sk);
+            SinkHandle::VF32(h)
+        }
+        Wire::C32(r) if p.vector_sink => {
+            let sk = VectorSink::new(r, usize::MAX);
+            let h = Arc::new(sk.hook());
+            b.add(sk);
+            SinkHandle::VC32(h)
+        }
         Wire::U8(r, _) => {
             let got = Arc::new(Mutex::new(Vec::new()));
             b.add(CollectSink { src: r, got: got.clone() });
@@ -725,6 +775,7 @@ pub fn gen_program(rng: &mut Rng, max_ops: usize, allow_fftfloat: bool) -> Progr
         repeat,
         ops,
         stream_bytes,
+        vector_sink: rng.chance(1, 4),
     }
 }
 
